@@ -289,9 +289,9 @@ def selectMethod (d : CryptDict) : Out (Nat × Method) :=
       match d.cf.lookup name with
       | none => .err
       | some f =>
-        -- `default.length.map(|n| 8 * n)`: u32 multiplication, overflow-checked in the harness build
+        -- `filter_key_bits`: `n.checked_mul(8)` in u32, an overflow is an error
         let bits : Out Nat := match f.length with
-          | some n => if 8 * n < 4294967296 then .ok (8 * n) else .panic
+          | some n => if 8 * n < 4294967296 then .ok (8 * n) else .err
           | none => .ok d.bits
         match f.method with
         | .v2 => bits.bind fun b => .ok (b, .v2)
